@@ -379,4 +379,31 @@ def support(rng, tier):
                 t = t / np.sqrt(np.sum(t ** 2))
                 res.append((f'regress_{method}_{"sigma" if sig is not None else "none"}_{rep}',
                             bool(np.allclose(th, t, rtol=1e-5, atol=1e-7 if sig is None else 1e-4)), dict(method=method, sel=sel)))
+    # a chain of mutually proportional partial RDMs on very different scales whose neighbours share a single pair: with a strict
+    # threshold the rescaling must reach a common scale however many sweeps that takes (seeded change C13-m2: capped iteration)
+    from scipy.spatial.distance import pdist
+    from rsatoolbox.rdm.combine import from_partials, rescale
+    for rep in range(1 if tier == 'quick' else 4):
+        n_cond = 8
+        conds = ['c%d' % i for i in range(n_cond)]
+        points = rs.rand(n_cond, 4) + 0.1 * np.arange(n_cond)[:, None]
+        scales = [1.0, 10.0, 0.1, 5.0, 0.5, 20.0]
+        partials = [RDMs(dissimilarities=(c * pdist(points[[k, k + 1, k + 2]]))[None, :],
+                         pattern_descriptors=dict(conds=[conds[i] for i in (k, k + 1, k + 2)])) for k, c in enumerate(scales)]
+        stack = from_partials(partials, all_patterns=conds)
+        orig = stack.dissimilarities.copy()
+        for method in ('simple', 'setsize', 'evidence'):
+            out = rescale(stack, method=method, threshold=1e-20).dissimilarities
+            same_nan = bool(np.array_equal(np.isnan(out), np.isnan(orig)))
+            lo, hi = np.nanmin(out, axis=0), np.nanmax(out, axis=0)
+            okk = np.isfinite(lo)
+            spread = float(np.max(hi[okk] / lo[okk] - 1)) if same_nan else float('inf')
+            ratios_ok = True
+            for o, i in zip(out, orig):
+                q = (o / i)[np.isfinite(o / i)]
+                ratios_ok = ratios_ok and bool(np.all(q > 0) and np.allclose(q, q[0], rtol=1e-9))
+            res.append((f'rescale_chain_{method}_{rep}', same_nan and ratios_ok and spread < 1e-3,
+                        dict(call=f"rescale(from_partials(chain of 6 proportional 3-condition RDMs), method='{method}', threshold=1e-20)",
+                             scales=scales, points=points.tolist(), nan_pattern_kept=same_nan, one_positive_factor_per_rdm=ratios_ok,
+                             largest_relative_disagreement_on_shared_pairs=spread)))
     return res
